@@ -5,9 +5,14 @@ Streams
           masking loop and the cascade recognisers (BLOCK/ASSOCIATE/END/VARIABLE/ATTRIB/USE:
           hand-written Lean mirrors; FORMAT/ARITH_GOTO: the parse tree of the compiled regex,
           regenerated from the working tree and interpreted by the model, with the method
-          `.match`/`.search` read from the call site) on random strings (exact comparison).
+          `.match`/`.search` read from the call site) on random strings (exact comparison);
+          `quote_split(";", .)` (statement separation) on random strings and on every word over
+          {', ", ;, a} up to a fixed length.
   unit  : generated executable parts (AST -> text -> random legal layout -> file -> real FORD
           `Project` in-process):
+          (a0) correspondence: the reader's statements of the executable part == the Lean
+              `unitStatements` of the logical lines (`;` outside literals, literals with free
+              content: other quote kind, doubled delimiter, `;`, `!`, `&`, call-like text);
           (a) correspondence: `unit.calls` before `correlate()` == the Lean `runUnit` on the
               statements the reader delivers; after `correlate()` the kept chains of length 1
               == the Lean `resolve1`;
@@ -54,6 +59,7 @@ OBJS = {"a": "t1", "b": "t2", "c": "t1"}
 SCALARS = ["x", "y", "z", "i", "j", "n", "ok"]
 LABELS = ["10", "20", "30", "100"]
 GOTO_SPELLINGS = ["go to", "goto", "GO TO", "GOTO", "Go To", "go  to", "GoTo"]
+LITERAL_POOL = ["'call g(1)'", '"x = f2(3)"', "'it''s sa(1)'", '"a%init()"', "'if (fa(1)) call sb'", "'('", '")"', "' '"]
 FORMAT_ITEMS = ["(a, f(2), i3)", "(3(f8.2, 1x), a)", "('call g(1)', i0)", "(f2(3))", "(1x, 2(i4, sa(2)))"]
 
 
@@ -115,11 +121,58 @@ class Gen:
         n = self.r.randint(lo, hi)
         out = []
         for _ in range(n):
-            e = self.expr(depth + 1)
+            e = self.literal() if self.r.random() < 0.10 else self.expr(depth + 1)
             if self.r.random() < 0.12:
                 e = ("kw", self.r.choice(["dim", "mask", "n", "flag"]), e)
             out.append(e)
         return out
+
+    def literal(self):
+        """A character literal with free content: either quote kind as delimiter; the body is any
+        text without a lone delimiter - the *other* quote character (an apostrophe in "...", a `"`
+        in '...'), doubled delimiters, `;`, `!`, `&`, `%`, parentheses and call-like text naming
+        the unit's own procedures.  Nothing in it is a call."""
+        r = self.r
+        self.note("literal")
+        if r.random() < 0.25:
+            return ("str", r.choice(LITERAL_POOL))
+        q = r.choice("'\"")
+        o = '"' if q == "'" else "'"
+        names = self.u.funcs + self.u.subs + self.u.extf + self.u.exts
+        out = []
+        feats = set()
+        for _ in range(r.randint(1, 6)):
+            k = r.random()
+            if k < 0.16:
+                out.append(r.choice(["call ", " call ", "Call "]) + r.choice(names) + r.choice(["(1)", "(x)", "", "()", "(fa(2))"]))
+            elif k < 0.28:
+                out.append(r.choice(["x = ", "", "if (", " "]) + r.choice(names) + r.choice(["(1)", "(x, y)", "()"]))
+            elif k < 0.34:
+                out.append(r.choice(["a%init()", "b % fetch(2)", "a%vals(1)"]))
+            elif k < 0.50:
+                out.append(r.choice([";", "; ", " ; "])); feats.add("semicolon")
+            elif k < 0.66:
+                out.append(o); feats.add("other-quote")
+            elif k < 0.72:
+                out.append(q + q); feats.add("doubled-quote")
+            elif k < 0.76:
+                out.append(r.choice(["!", " ! ", "!!"])); feats.add("bang")
+            elif k < 0.79:
+                out.append(r.choice(["&", " & "])); feats.add("ampersand")
+            elif k < 0.84:
+                out.append(r.choice(["(", ")", "((", ") (", "%", "=>"]))
+            else:
+                out.append(r.choice(["it", "s", "can", "t continue", " over", "done", "100", " ", "n", "say", ", ", "x"]))
+        body = "".join(out)
+        if body.endswith("&"):
+            body += " "          # a literal is never split over lines here
+        for f in feats:
+            self.note("literal:" + f)
+        if "other-quote" in feats and body.count(o) % 2 == 1:
+            self.note("literal:odd-other-quote")
+            if "semicolon" in feats:
+                self.note("literal:odd-other-quote+semicolon")
+        return ("str", q + body + q)
 
     def assoc_names(self, kind):
         merged = {}
@@ -158,9 +211,7 @@ class Gen:
             if k < 0.7:
                 return ("real", r.choice(["1.0", "2.5e0", "1.d0", "3.0_8"]))
             if k < 0.8:
-                self.note("literal")
-                return ("str", r.choice(["'call g(1)'", '"x = f2(3)"', "'it''s sa(1)'", '"a%init()"',
-                                         "'if (fa(1)) call sb'", "'('", '")"', "' '"]))
+                return self.literal()
             if k < 0.9:
                 o, t = self.obj()
                 return ("comp", o, [(r.choice(self.u.types[t]["scalars"]), None)])
@@ -268,7 +319,7 @@ class Gen:
     def io_stmt(self):
         r = self.r
         k = r.random()
-        items = [self.expr(1) for _ in range(r.randint(1, 3))]
+        items = [self.literal() if r.random() < 0.2 else self.expr(1) for _ in range(r.randint(1, 3))]
         if k < 0.3:
             self.note("print")
             fmt = r.choice(["*", "*", "'(a, i0, f(2))'", '"(3f8.2)"'])
@@ -626,8 +677,11 @@ class Render:
 NO_JOIN = ("labelled", "format", "doc")
 
 
-def layout(rng: random.Random, stmts: list[str], feat: set) -> list[str]:
-    """Physical lines: `;` joins, `&` continuations at blanks outside literals, trailing comments."""
+def layout(rng: random.Random, stmts: list[str], feat: set, logical: list | None = None) -> list[str]:
+    """Physical lines: `;` joins, `&` continuations at blanks outside literals, trailing comments.
+    `logical` (if given) receives, per group of physical lines, the completed logical line as
+    Fortran's continuation rules define it (a leading `&` joins directly, its absence joins
+    with one blank; comments and interspersed blank/comment lines vanish)."""
     lines = []
     k = 0
     while k < len(stmts):
@@ -645,6 +699,7 @@ def layout(rng: random.Random, stmts: list[str], feat: set) -> list[str]:
         if s.startswith("!!"):
             lines.append(ind + text)
             continue
+        joined = ""
         # continuation breaks
         pieces = [text]
         if rng.random() < 0.18:
@@ -660,9 +715,14 @@ def layout(rng: random.Random, stmts: list[str], feat: set) -> list[str]:
                 pieces.append(text[last:])
                 feat.add("continuation")
         for i, pc in enumerate(pieces):
-            ln = ind + ("& " if i > 0 and rng.random() < 0.5 else "") + pc
+            lead = i > 0 and rng.random() < 0.5
+            ln = ind + ("& " if lead else "") + pc
             if i < len(pieces) - 1:
                 ln += " &"
+            # the logical line: code part without the continuation marks
+            joined = (joined + " " + pc) if lead else (joined.strip() + " " + pc.strip())
+            if i < len(pieces) - 1:
+                joined += " "
             if rng.random() < 0.08:
                 ln += rng.choice(["  ! note: call cm(1)", " ! fa(2) here", " !"])
                 feat.add("comment")
@@ -670,6 +730,8 @@ def layout(rng: random.Random, stmts: list[str], feat: set) -> list[str]:
             if i < len(pieces) - 1 and rng.random() < 0.1:
                 lines.append(rng.choice(["", "   ! comment between, zz(3)"]))
                 feat.add("line-in-continuation")
+        if logical is not None:
+            logical.append(joined)
     return lines
 
 
@@ -1099,6 +1161,8 @@ STARTERS = {
     "USE_RE": ["use m", "use :: m", "use, intrinsic :: iso", "use,non_intrinsic::m", "use m, only: x", "use  m ,", "usem",
                "use ::", "use, intrinsic m", "use , non_intrinsic :: m", "use m x", "USE M"],
 }
+QS_ALPHA = ["'", '"', "'", '"', "''", '""', ";", ";", " ; ", ";;", "a", " ", "x = 1", "call f(1)", "it", "s", "(", ")", "!", "&",
+            "print *, ", "'a;b'", '"c;d"', "\"it's\"", "'say \"no\"'", ","]
 TAILS = ["", " ", "x", " x", "(", " (", "::", " :: ", ",", "*", "/", "=", ")", " y)", "1", "_", ":"]
 RX_NAMES = ["FORMAT_RE", "ARITH_GOTO_RE", "BLOCK_RE", "ASSOCIATE_RE", "END_RE", "VARIABLE_RE", "ATTRIB_RE", "USE_RE"]
 
@@ -1116,7 +1180,7 @@ def real_mask(sf, line: str) -> str:
     return line
 
 
-def micro_stream(impl: Impl, drv: Driver, rng, n, rep: Report):
+def micro_stream(impl: Impl, drv: Driver, rng, n, rep: Report, qs_len: int = 6):
     sf = impl.sf
     import ford.utils as U
     FC = sf.FortranContainer
@@ -1127,7 +1191,7 @@ def micro_stream(impl: Impl, drv: Driver, rng, n, rep: Report):
     reqs, exp = [], []
     for k in range(n):
         s = "".join(rng.choice(MICRO_ALPHA) for _ in range(rng.randint(0, 9)))
-        which = k % 6
+        which = k % 7
         rxname = rng.choice(RX_NAMES)
         st = {1: "callre", 2: "subcall", 5: rxname}.get(which)
         if st and rng.random() < 0.7:
@@ -1144,6 +1208,10 @@ def micro_stream(impl: Impl, drv: Driver, rng, n, rep: Report):
             reqs.append(["c08.chain", s]); exp.append(["ok"] + sf.CALL_AND_WHITESPACE_RE.sub("", s).lower().split("%"))
         elif which == 4:
             reqs.append(["c08.mask", s]); exp.append(["ok", real_mask(sf, s)])
+        elif which == 6:
+            # statement separation: `quote_split(";", logical line)` as the reader calls it
+            s = "".join(rng.choice(QS_ALPHA) for _ in range(rng.randint(0, 10)))
+            reqs.append(["c08.qsplit", s]); exp.append(["ok"] + U.quote_split(";", s))
         else:
             name = rxname
             s2 = s.strip()
@@ -1160,22 +1228,38 @@ def micro_stream(impl: Impl, drv: Driver, rng, n, rep: Report):
                     exp.append(["ok", "1", (m.group(1) or "-").lower() if m.group(1) else "-"])
                 else:
                     exp.append(["ok", "1"])
+    # statement separation, exhaustively: every word over {', ", ;, a} up to a fixed length (the
+    # mechanism is a two-flag scanner with one character of look-ahead, so every combination of
+    # state, character and look-ahead occurs in words of length <= 4 already)
+    import itertools
+    for ln in range(0, qs_len + 1):
+        for w in itertools.product("'\";a", repeat=ln):
+            w = "".join(w)
+            reqs.append(["c08.qsplit", w]); exp.append(["ok"] + U.quote_split(";", w))
     got = drv.batch(reqs)
     bad = 0
     hist = {}
+    reported = {}
     for r, e, g in zip(reqs, exp, got):
         key = r[0] + ("/" + r[1] if r[0] == "c08.rx" else "")
         h = hist.setdefault(key, [0, 0])
         h[0] += 1
-        if len(e) > 1 and e[1:] not in (["0"], []):
+        if r[0] == "c08.qsplit":
+            # non-trivial: a `;` inside a literal that also holds the other quote character, or
+            # a `;` after such a literal
+            if len(e) > 2 and ("'" in r[1] and '"' in r[1]):
+                h[1] += 1
+        elif len(e) > 1 and e[1:] not in (["0"], []):
             h[1] += 1
         # END_RE group: `block\sdata` may contain any white-space character; compare squeezed
         if r[0] == "c08.rx" and r[1] == "END_RE" and len(e) == 3 and len(g) == 3:
             e = [e[0], e[1], re.sub(r"\s", " ", e[2])]
         if e != g:
             bad += 1
-            rep.tie_broken(f"correspondence micro/{key}: model {g} vs implementation {e} on {r[1:]!r}",
-                           {"stream": "micro", "request": r, "impl": e, "model": g})
+            reported[key] = reported.get(key, 0) + 1
+            if reported[key] <= 10:     # at most ten reports per stream; all are counted
+                rep.tie_broken(f"correspondence micro/{key}: model {g} vs implementation {e} on {r[1:]!r}",
+                               {"stream": "micro", "request": r, "impl": e, "model": g})
     return len(reqs), bad, {k: {"cases": v[0], "non_trivial": v[1]} for k, v in sorted(hist.items())}
 
 
@@ -1198,9 +1282,10 @@ def render_case(u: Universe, body, layout_seed):
     out = []
     Render(rr).stmts(body, out)
     feat = set()
-    phys = layout(rr, out, feat)
+    logical = []
+    phys = layout(rr, out, feat, logical)
     lines, head = build_file(u, phys)
-    return out, lines, head, feat
+    return out, lines, head, feat, logical
 
 
 def unit_lines_from_reader(rl: list[str], head: str) -> list[str] | None:
@@ -1210,9 +1295,24 @@ def unit_lines_from_reader(rl: list[str], head: str) -> list[str] | None:
     return None
 
 
+def exec_slice(u: Universe, ul: list[str] | None) -> list[str] | None:
+    """the reader's statements of the executable part: after the fixed specification part, up to
+    the END statement of the unit; documentation items are not statements"""
+    if ul is None:
+        return None
+    n_pre = len(decl_lines(u)) + (2 if u.unit_kind == "program" else 1)
+    end = f"end {u.unit_kind} {UNIT_NAME}"
+    out = []
+    for l in ul[n_pre:]:
+        if l.lower() == end:
+            return [x for x in out if not x.startswith("!")]
+        out.append(l)
+    return None
+
+
 def evaluate(impl: Impl, drv_requests, u, body, layout_seed, d: Path):
     """Run the real code on one case; returns a dict with everything the comparison needs."""
-    stmts, lines, head, feat = render_case(u, body, layout_seed)
+    stmts, lines, head, feat, logical = render_case(u, body, layout_seed)
     src = d / "src"
     src.mkdir(exist_ok=True)
     for old in src.glob("*.f90"):
@@ -1225,7 +1325,8 @@ def evaluate(impl: Impl, drv_requests, u, body, layout_seed, d: Path):
     except Exception as e:  # noqa
         rl = None
     ul = unit_lines_from_reader(rl, head) if rl is not None else None
-    return {"stmts": stmts, "lines": lines, "head": head, "feat": feat, "impl": res, "unit_lines": ul}
+    return {"stmts": stmts, "lines": lines, "head": head, "feat": feat, "impl": res, "unit_lines": ul,
+            "logical": logical, "exec_statements": exec_slice(u, ul)}
 
 
 def oracle(u: Universe, body, post):
@@ -1327,9 +1428,9 @@ def run(tier: str, seed: int, replay: str | None = None) -> int:
     impl = Impl()
     drv = Driver()
     rng = random.Random(seed * 7919 + 8)
-    n_micro = 6000 if tier == "quick" else 60000
+    n_micro = 7000 if tier == "quick" else 70000
     n_unit = 1500 if tier == "quick" else 15000
-    ev_micro, bad_micro, micro_hist = micro_stream(impl, drv, rng, n_micro, rep)
+    ev_micro, bad_micro, micro_hist = micro_stream(impl, drv, rng, n_micro, rep, 6 if tier == "quick" else 8)
 
     kinds_hist, feat_hist, gate_hist = {}, {}, {}
     distinct = set()
@@ -1349,6 +1450,7 @@ def run(tier: str, seed: int, replay: str | None = None) -> int:
         for ev in results:
             reqs.append(["c08.unit"] + (ev["unit_lines"] or []))
         model = drv.batch(reqs)
+        model_l = drv.batch([["c08.lines"] + ev["logical"] for ev in results])
         reqs2 = []
         for ev in results:
             vs, ts, ps = visible_names(ev["u"])
@@ -1362,7 +1464,7 @@ def run(tier: str, seed: int, replay: str | None = None) -> int:
         for gname in drv.batch(gate_reqs):
             gate_hist[gname[1]] = gate_hist.get(gname[1], 0) + 1
 
-        for ev, mo, mo2 in zip(results, model, model2):
+        for ev, mo, mo2, mol in zip(results, model, model2, model_l):
             k, u, body = ev["k"], ev["u"], ev["body"]
             for kk, c in ev["kinds"].items():
                 kinds_hist[kk] = kinds_hist.get(kk, 0) + c
@@ -1389,6 +1491,12 @@ def run(tier: str, seed: int, replay: str | None = None) -> int:
                 n_bad_corr += 1
                 rep.tie_broken(f"correspondence unit/pre-correlate: model and implementation differ on case {k}",
                                dict(case, impl=pre_s, model=mo))
+            # (a0) statement separation: the statements the real reader delivers for the executable
+            #      part == the model's `unitStatements` of the logical lines (`;` outside literals)
+            if ev["exec_statements"] is None or mol[0] != "ok" or mol[1:] != ev["exec_statements"]:
+                n_bad_corr += 1
+                rep.tie_broken(f"correspondence unit/statement-separation: model and reader differ on case {k}",
+                               dict(case, logical_lines=ev["logical"], reader=ev["exec_statements"], model=mol))
             # (a') after correlate, chains of length 1
             post_names = [p[-1] for p in post]
             kept1 = [c[0] for c in pre if len(c) == 1 and c[0] in post_names]
@@ -1433,7 +1541,7 @@ def run(tier: str, seed: int, replay: str | None = None) -> int:
              "non-trivial = the real parser recorded at least one call chain for the unit; distinct by digest of the "
              "statements the reader delivered",
         samples=samples,
-        traces_validated_against_impl=ev_micro + 2 * len(results),
+        traces_validated_against_impl=ev_micro + 3 * len(results),
         correspondence_disagreements=n_bad_corr + bad_micro,
         oracle_failures=n_oracle_fail,
         implementation_errors=n_impl_err,
